@@ -137,6 +137,7 @@ fixed("FX15-arg-bindings", ["C16", "C14"], "0a094a9", "arg/3 did not bind variab
 fixed("FX16-functor-name-of-number", ["C16"], "72272b2", "functor(3, N, A) answered N = '3' (an atom) instead of 3", "?- functor(3, N, A).")
 fixed("FX17-length-unifyerror", ["C16", "C27"], "fd89bc6", "length(L, -1) raised the internal engine_unify.UnifyError", "?- length(L, -1).")
 fixed("FX18-eq-result-not-resolved", ["C14"], "a2825b1", "X = Y returned bindings that are not the mgu: a variable bound by a later argument stayed unbound in an earlier one", "r(A,B,C) :- g(f(f(A)),f(B)) = g(C,A).  gave C = f(f(f(_other)))")
+fixed("FX20-semiring-is-one", ["C12"], "9f3be78", "Semiring.is_one compared with the bound method: is_one(one()) False, default normalize(a, one()) raised OperationNotSupported", "class Mini(Semiring) with one()=1.0: Mini().is_one(1.0) is False")
 fixed("FX1-break-cycles-true-child", ["C01", "C09"], "29bdee9",
       "AssertionError in LogicFormula.get_node(0) from _break_cycles when a disjunction below an evidence node contains the TRUE node",
       "0.1::h(c1). d(c1). d(c2). p(X) :- d(X), r(c1). p(Y) :- d(Y). r(X) :- p(X). r(Y) :- d(Y), h(X). query(p(c1)). evidence(r(c1)).")
